@@ -361,6 +361,8 @@ func coalesceMain(args []string) error {
 		return coalesceConc(args[1:])
 	case "enum":
 		return coalesceEnum(args[1:])
+	case "duel":
+		return coalesceDuel(args[1:])
 	}
 	return fmt.Errorf("coalesce: unknown mode %q", args[0])
 }
